@@ -78,7 +78,7 @@ class C28(Prop):
     ID = "C28"
     PROPS_FILE = "Props/C28.v"
     CORR_MODULE = "Binding.Corr"
-    MAX_WORKERS = 6
+    MAX_WORKERS = 4
     LEVEL_TEXT = ("Theorems (Coq, closed under the global context), for any number of bindings, any path depth and any "
                   "number of deployments: get_binding_config's answer for a step equals the walk `nearest` over the flat "
                   "list of step bindings and its closed form `best` (the step binding with the longest path that is a "
